@@ -88,32 +88,17 @@ pub fn run(run: &Run) {
         }
         true
     });
-    // ZWNJ between transparent runs of every length 0..=40 on both sides (contextual rule inside prepare/enforce)
-    run.par("zwnj_long_runs", true, |tid, n, l| {
-        let mut idx = 0usize;
-        for nb in 0..=40usize {
-            for na in 0..=40usize {
-                for (left, right) in [('\u{628}', '\u{628}'), ('\u{626}', '\u{627}'), ('a', '\u{628}'), ('\u{94d}', 'a')] {
-                    idx += 1;
-                    if idx % n != tid {
-                        continue;
-                    }
-                    let mut s = String::new();
-                    s.push(left);
-                    s.extend(std::iter::repeat('\u{64e}').take(nb));
-                    s.push('\u{200c}');
-                    s.extend(std::iter::repeat('\u{650}').take(na));
-                    s.push(right);
-                    l.cases += 1;
-                    for p in profs {
-                        if let Err(v) = check(run, p, &s, l) {
-                            run.violate(v);
-                            return;
-                        }
-                    }
-                }
+    // ZWNJ between transparent runs (contextual rule inside prepare/enforce), contextual families
+    let mut labels = zwnj_run_labels();
+    labels.extend(PAYLOADS_FAMILIES.iter().map(|s| s.to_string()));
+    battery(run, "zwnj_long_runs", &labels, &|s, l| {
+        for p in profs {
+            if let Err(v) = check(run, p, s, l) {
+                run.violate(v);
+                return false;
             }
         }
+        true
     });
     composing_pairs(run, "all_composing_pairs", &|s, l| profs.iter().all(|p| match check(run, *p, s, l) {
         Ok(()) => true,
